@@ -25,7 +25,9 @@ CLAUSES = {
 
 def run_processor(ctx, pid, note):
     ov = ctx.overlay(OVERLAY)
-    rc, out = ctx.go_test("node", "./pkg/processor", "^TestVerifProcessor$", ov)
+    # scale families (thousands of messages / entries) run only for the properties whose statements they bear on
+    rc, out = ctx.go_test("node", "./pkg/processor", "^TestVerifProcessor$", ov,
+                          env={"VERIF_PROC_SCALE": pid if pid in ("C02", "C14") else ""})
     cases = os.path.join(ctx.work, "processor.cases")
     if rc != 0 or not os.path.exists(cases):
         ctx.broken.append(("tie", "go-harness", out[-800:]))
